@@ -57,8 +57,17 @@ ASSUMPTIONS = [
     'only optionality patterns a graph can declare are generated (expired / '
     'submit-failed never required; opposite outputs both optional when both '
     'are named)',
-    'custom output names are those cylc\'s own TaskOutputValidator accepts; '
-    'names rejected at config load are discarded (counted)',
+    'definitions built directly through the TaskDef setters only use '
+    'custom output names that config validation accepts (plain identifiers, '
+    'hyphens allowed, no two names with the same hyphen/underscore '
+    'spelling), because the property quantifies over task definitions a '
+    'user can load',
+    'awkward names (Python keywords, leading digits, non-identifier or '
+    'NFKC-unstable characters, __debug__, hyphen/underscore collisions) are '
+    'offered to the real WorkflowConfig: a rejection at load is expected '
+    'and counted (hostile_name_rejected_by_config, '
+    'collision_rejected_by_config); if cylc accepts the name the definition '
+    'is judged like any other',
     'user expressions whose variables are ambiguous (two outputs with the '
     'same hyphen/underscore spelling) are not generated',
     'the blank-expression fallback for tasks removed by reload is outside '
@@ -73,7 +82,7 @@ MIN = {
         'verdict_complete': 50000, 'verdict_incomplete': 50000,
         'defs_succ_opt': 300, 'defs_sub_opt': 300, 'defs_exp_opt': 300,
         'defs_custom_required': 300, 'chain_evals': 10000,
-        'hostile_name_defs': 30,
+        'hostile_name_cases': 30,
     },
     'thorough': {
         'is_complete_evals': 2500000, 'defs_default_direct': 7200,
@@ -81,7 +90,7 @@ MIN = {
         'verdict_complete': 500000, 'verdict_incomplete': 500000,
         'defs_succ_opt': 1000, 'defs_sub_opt': 1000, 'defs_exp_opt': 1000,
         'defs_custom_required': 1000, 'chain_evals': 50000,
-        'hostile_name_defs': 300,
+        'hostile_name_cases': 300,
     },
 }
 NCASES = {'quick': 96, 'thorough': 768}
@@ -96,6 +105,7 @@ _BOX = None
 def setup_shard(ctx):
     global _STD_PATTERNS, _BOX
     G.quiet_logging()
+    assert all(G.loadable_plain_name(nm) for nm in G.PLAIN_NAMES)
     _STD_PATTERNS = M.legal_std_patterns()
     box = []
     for k in range(0, 4):
@@ -354,8 +364,8 @@ def config_def(ctx, i, j, rng):
     """A definition produced by the real WorkflowConfig from a flow.cylc."""
     from cylc.flow.exceptions import CylcError
     std = dict(rng.choice(_STD_PATTERNS))
-    mode = rng.choice(['plain', 'plain', 'hostile', 'hostile', 'collision',
-                       'user'])
+    mode = rng.choice(['plain', 'plain', 'plain', 'hostile', 'hostile',
+                       'collision', 'user', 'user'])
     name_cls = 'name-plain'
     tree = text = None
     if mode == 'hostile':
@@ -402,15 +412,29 @@ def config_def(ctx, i, j, rng):
         cfg = G.load_config(ctx.workdir, flow)
     except CylcError as exc:
         # cylc refuses this configuration: not a task definition
-        ctx.count(f'discard_config_rejected_{mode}')
-        ctx.count(f'discard_config_rejected:{type(exc).__name__}')
+        if mode == 'hostile':
+            # expected: cylc refuses names it cannot use in expressions
+            ctx.count('hostile_name_cases')
+            ctx.count('hostile_name_rejected_by_config')
+            ctx.count(f'hostile_rejected:{name_cls}')
+        elif mode == 'collision':
+            ctx.count('collision_cases')
+            ctx.count('collision_rejected_by_config')
+        else:
+            ctx.count(f'discard_config_rejected_{mode}')
+            ctx.count(f'discard_config_rejected:{type(exc).__name__}')
         return
     tdef = cfg.taskdefs['a']
     ctx.count('defs_via_config')
     ctx.count(f'config_mode_{mode}')
     if mode == 'hostile':
+        # accepted by cylc: then completion must be judged correctly
+        ctx.count('hostile_name_cases')
         ctx.count('hostile_name_defs')
-        ctx.count(f'hostile:{name_cls}')
+        ctx.count(f'hostile_accepted:{name_cls}')
+    elif mode == 'collision':
+        ctx.count('collision_cases')
+        ctx.count('collision_accepted_defs')
     count_features(ctx, marks, cmarks, tree)
     run_def(ctx, 'WorkflowConfig', tdef, marks, customs, tree, text,
             name_cls, rng, extra={'flow_cylc': flow})
